@@ -227,7 +227,8 @@ def evidence(pid, P, ctx, results, violations, knownhits, unconfirmed, infra, wa
 def c17(ctx):
     q = ctx.quick
     return [
-        tool_job(ctx, 'shellparse', 'internal/shellparse', 'shellparse', [H(ctx, 'C17', 'shell_h.go')], unwind=40, deadline_s=600 if q else 2400),
+        tool_job(ctx, 'shellparse', 'internal/shellparse', 'shellparse', [H(ctx, 'C17', 'shell_h.go')], unwind=40, deadline_s=600 if q else 2400,
+                 only=['H_shell_dq1_2', 'H_shell_dq2_11', 'H_shell_sq', 'H_shell_unterminated'] if q else None),
         tool_job(ctx, 'safesplit', 'xtool/safesplit', 'safesplit', [H(ctx, 'C17', 'pkgconfig_h.go')], unwind=40, deadline_s=600 if q else 2400),
     ]
 
